@@ -10,6 +10,8 @@ import (
 	"testing"
 
 	"github.com/99designs/gqlgen/graphql/handler/extension"
+	"github.com/99designs/gqlgen/graphql/handler/lru"
+	"github.com/vektah/gqlparser/v2/ast"
 	"pgregory.net/rapid"
 
 	"vh/hsrv"
@@ -22,8 +24,11 @@ import (
 )
 
 // the alphabet: texts and the root field that reveals which text was executed
-var texts = []string{"{ s }", "{ i }", "mutation { m3 }", "{ nope }"}
-var reveals = []string{"s", "i", "m3", ""}
+// the last two texts differ only in the case of a letter inside a string literal: they have different
+// hashes and must never stand in for each other (whatever a cache does to its keys)
+var texts = []string{"{ s }", "{ i }", "mutation { m3 }", "{ nope }", `{ echo(s: "Alice") }`, `{ echo(s: "alice") }`}
+var reveals = []string{"s", "i", "m3", "", "echo", "echo"}
+var revealArg = []string{"", "", "", "", "Alice", "alice"}
 
 func hashOf(t string) string {
 	b := sha256.Sum256([]byte(t))
@@ -86,6 +91,8 @@ func (st Step) request() hsrv.Req {
 type Case struct {
 	Steps []Step `json:"steps"`
 	Bound int    `json:"cache_bound"` // 0 = unbounded
+	// QueryCache: the server also caches parsed documents in an lru.LRU, as NewDefaultServer does
+	QueryCache bool `json:"query_cache,omitempty"`
 }
 
 var srv *proj.Server
@@ -111,10 +118,14 @@ func check(c Case) *vfrun.Failure {
 	cache := hsrv.NewRecCache[string](c.Bound)
 	h := hsrv.New(s, hsrv.Config{Transports: []string{"get", "post"}, Recovers: &recovers})
 	h.Use(extension.AutomaticPersistedQuery{Cache: cache})
+	if c.QueryCache {
+		h.SetQueryCache(lru.New[*ast.QueryDocument](100))
+	}
 	reg := map[string]string{} // model: hash -> text, every registration ever made
 	sawReg, sawHit, sawMismatchOrEvict := false, false, false
 	for i, st := range c.Steps {
 		e := univ.NewExec(plan.New(7))
+		e.RecordArgs = true
 		s.U.SetExec(e)
 		before := cache.Snapshot()
 		res := hsrv.Serve(h, st.request().Build())
@@ -166,6 +177,15 @@ func check(c Case) *vfrun.Failure {
 			}
 			if executed != reveals[ti] {
 				return vfrun.Failf("apq.wrong-text-executed", "%s: %s: expected root field %q to run, ran %q; body %s", desc, what, reveals[ti], roots, errText)
+			}
+			if revealArg[ti] != "" {
+				for _, ev := range e.Events() {
+					if ev.Kind == "R" && ev.Key == executed {
+						if got := fmt.Sprint(ev.Args); !strings.Contains(got, "s:"+revealArg[ti]) {
+							return vfrun.Failf("apq.wrong-text-executed", "%s: %s: expected the text with argument %q to run, the resolver received %s", desc, what, revealArg[ti], got)
+						}
+					}
+				}
 			}
 			return nil
 		}
@@ -254,7 +274,7 @@ func TestExhaustive(t *testing.T) {
 	var rec func(prefix []Step)
 	rec = func(prefix []Step) {
 		if len(prefix) > 0 {
-			c := Case{Steps: append([]Step(nil), prefix...)}
+			c := Case{Steps: append([]Step(nil), prefix...), QueryCache: true}
 			if f := check(c); f != nil {
 				vfrun.WriteReplay("C15", "TestExhaustive", c, f)
 				t.Fatalf("key=%s %s", f.Key, f.Msg)
@@ -278,7 +298,7 @@ func TestExhaustive(t *testing.T) {
 func genHistory(t *rapid.T) Case {
 	alpha := alphabet()
 	n := rapid.IntRange(4, 25).Draw(t, "len")
-	c := Case{Bound: rapid.SampledFrom([]int{0, 1, 2, 2, 3}).Draw(t, "bound")}
+	c := Case{Bound: rapid.SampledFrom([]int{0, 1, 2, 2, 3}).Draw(t, "bound"), QueryCache: rapid.Bool().Draw(t, "querycache")}
 	for i := 0; i < n; i++ {
 		st := alpha[rapid.IntRange(0, len(alpha)-1).Draw(t, "step")]
 		st.Get = rapid.IntRange(0, 3).Draw(t, "get") == 0
